@@ -391,6 +391,24 @@ func (tr *Tracer) gotoBlock(st *state, b *ssa.BasicBlock) (*state, []*state) {
 		f.loopGen[b] = 0
 	}
 	if isLoopHeader(b) {
+		// a scalar local of this function that was never written before the loop (a named result, `var err error`)
+		// holds its zero value on entry: materialise the cell so that it can be an invariant candidate like any other
+		for v, sv := range f.regs {
+			a, isAlloc := v.(*ssa.Alloc)
+			if !isAlloc || sv == nil || sv.Kind != KAlloc {
+				continue
+			}
+			pt, isPtr := a.Type().Underlying().(*types.Pointer)
+			if !isPtr {
+				continue
+			}
+			switch pt.Elem().Underlying().(type) {
+			case *types.Basic, *types.Pointer, *types.Interface:
+				if _, has := st.store[sv.Key()]; !has {
+					tr.loadCell(st, sv, pt.Elem())
+				}
+			}
+		}
 		// remember which cells hold known constants on first entry (candidates for loop invariants)
 		snap := map[string]*Sym{}
 		for k, c := range st.store {
